@@ -10,6 +10,7 @@ import (
 	"sort"
 	"strings"
 	"sync"
+	"sync/atomic"
 	"time"
 
 	"gcverif/internal/hx"
@@ -301,7 +302,9 @@ func (w *runner) do(o sop) {
 	w.curMu.Unlock()
 }
 
-func finalTree(fs filesystem.Filespace) string {
+func finalTree(fs filesystem.Filespace) string { return finalTreeAt(fs, nil) }
+
+func finalTreeAt(fs filesystem.Filespace, cur *atomic.Value) string {
 	items := []string{}
 	var walk func(dir string)
 	walk = func(dir string) {
@@ -319,6 +322,9 @@ func finalTree(fs filesystem.Filespace) string {
 				items = append(items, p+"/")
 				walk(p)
 			} else {
+				if cur != nil {
+					cur.Store(p)
+				}
 				d, err := fs.ReadFile(p)
 				if err != nil {
 					items = append(items, p+"=!err")
@@ -399,10 +405,49 @@ func stressMain(out *bufio.Writer, rounds int) {
 			out.Flush()
 			os.Exit(0)
 		}
-		fmt.Fprintln(out, finalTree(fs))
+		// the final walk reads every file through the public interface: a file that was born or left locked
+		// blocks it for ever - that is an answer (`hang`, R0 of the monitor), not a reason to sit here
+		tree, stuck := finalTreeWatched(fs)
+		if stuck != "" {
+			fmt.Fprintf(out, "g %d read %s -> hang\n", n, stuck)
+			fmt.Fprintln(out, "tree")
+			fmt.Fprintln(out, "endhistory")
+			fmt.Fprintln(out, "aborted after a hang")
+			out.Flush()
+			os.Exit(0)
+		}
+		fmt.Fprintln(out, tree)
 		fmt.Fprintln(out, "endhistory")
 		out.Flush()
 	}
+}
+
+// finalTreeWatched is finalTree under a watchdog: when the walk has not returned after longWait the path it is
+// reading is returned (the goroutine's state - parked on a sync lock or not - goes to stderr for the record; all
+// goroutines of the round have finished by then, so nobody will release anything).
+func finalTreeWatched(fs filesystem.Filespace) (tree string, stuck string) {
+	var cur atomic.Value
+	cur.Store(".")
+	done := make(chan string, 1)
+	gid := make(chan int64, 1)
+	go func() {
+		gid <- hx.GoID()
+		done <- finalTreeAt(fs, &cur)
+	}()
+	id := <-gid
+	select {
+	case t := <-done:
+		return t, ""
+	case <-time.After(longWait):
+	}
+	st, _ := hx.GoroutineStatus(id)
+	fmt.Fprintf(os.Stderr, "final walk stuck at %s, goroutine state %q\n", cur.Load().(string), st)
+	select {
+	case t := <-done:
+		return t, ""
+	default:
+	}
+	return "", cur.Load().(string)
 }
 
 // kfraceMain is the witness of the recorded finding KF-C09-1: Remove of a directory reads
